@@ -9,6 +9,7 @@ from ..runner import Outcome
 from .c08 import expected_cmp
 
 LEVEL = "proof"
+TRUSTED_EXTRA = ["translator verif/gen_bodies.py (Python ast -> PyIR terms, purely syntactic)", "PyIR interpreter (lean/MafModel/MafModel/PyIR/Interp.lean), validated on every run against the real LocatableOverlapIterator.__overlaps / __overlaps_with_barcode (body.overlaps)"]
 ASSUMPTIONS = ["records are closed intervals (start <= end); with end < start the real loop emits empty groups forever (outside the property's domain, recorded in DESIGN.md)"]
 
 
@@ -434,6 +435,11 @@ def run(ctx):
         exc, failures = eval_disorder(inputs, contigs, by_barcodes)
         out.failures += failures
         out.distribution["disorder:" + str(exc)] += 1
+    # the translated overlap predicates, interpreted, against the real class methods (the theorems of Props/C11Bodies
+    # tie the interpreted bodies to the model's overlapsHead for every input)
+    from .. import bodycases
+    bodycases.overlaps_cases(ctx, out)
+    bodycases.translation_report(ctx, out)
     for flag in ("-O", "-OO"):
         out.evaluations += 1
         out.failures += eval_optimised(flag)
